@@ -112,7 +112,7 @@ pub fn op_hist(args: &[&str]) -> String {
 use bao_tree::io::{mixed::EncodedItem, BaoContentItem, EncodeError, Leaf, Parent};
 use bao_tree::{ChunkNum, TreeNode};
 
-fn io_kind_of_name(s: &str) -> std::io::ErrorKind {
+pub fn io_kind_of_name(s: &str) -> std::io::ErrorKind {
     use std::io::ErrorKind::*;
     match s {
         "NotFound" => NotFound,
@@ -158,6 +158,18 @@ fn mk_err(p: &[&str]) -> EncodeError {
         "pw" => EncodeError::ParentWrite(node(p[1].parse().unwrap())),
         "lw" => EncodeError::LeafWrite(ChunkNum(p[1].parse().unwrap())),
         "sm" => EncodeError::SizeMismatch,
+        // an io error without a custom payload: a bare kind (`ios:<Kind>:<hex of its Display>`) or an OS error
+        // (`ioo:<errno>:<Kind>:<hex of its Display>`); kind and text in the case line are std's, computed by the generator
+        "ios" | "ioo" => {
+            let (e, rest) = if p[0] == "ios" {
+                (std::io::Error::from(io_kind_of_name(p[1])), &p[1..])
+            } else {
+                (std::io::Error::from_raw_os_error(p[1].parse().unwrap()), &p[2..])
+            };
+            let msg = String::from_utf8(blob(&format!("hex:{}", rest[1]))).unwrap();
+            assert!(format!("{:?}", e.kind()) == rest[0] && e.to_string() == msg && e.get_ref().is_none(), "bad case: std text differs");
+            EncodeError::Io(e)
+        }
         "io" => {
             let msg = String::from_utf8(blob(&format!("hex:{}", p[2]))).unwrap();
             EncodeError::Io(std::io::Error::new(io_kind_of_name(p[1]), msg))
